@@ -445,14 +445,16 @@ func runC10(r *engine.Run) {
 			}
 		}
 	})
-	r.PartDims("inspect-only/Validate+Marshal", []string{fmt.Sprintf("frame:%d", len(frames)), "operation:6"}, uint64(len(frames)*6), func(c *engine.Case) {
+	r.PartDims("inspect-only/Validate+Marshal", []string{fmt.Sprintf("frame:%d", len(frames)), "operation:7", "FOpts{decoded to commands first, as they came from the wire}"}, uint64(len(frames)*7*2), func(c *engine.Case) {
 		fr := frames[c.Index%uint64(len(frames))]
-		op := int(c.Index / uint64(len(frames)))
+		op := int(c.Index/uint64(len(frames))) % 7
 		var p lorawan.PHYPayload
 		if err := p.UnmarshalBinary(append([]byte(nil), fr.wire...)); err != nil {
 			return
 		}
-		p.DecodeFOptsToMACCommands()
+		if c.Index/uint64(len(frames))/7 == 0 {
+			p.DecodeFOptsToMACCommands()
+		}
 		before := deepPrint(p)
 		k := keyOf(c05KeyF)
 		name := ""
@@ -476,6 +478,10 @@ func runC10(r *engine.Run) {
 		case 5:
 			p.MarshalJSON()
 			name = "MarshalJSON"
+		case 6:
+			// what a log line does: the fmt verbs, Stringer / GoStringer, encoding/json, by value and by pointer
+			observe(p, &p)
+			name = "formatting(fmt,String,json)"
 		}
 		c.NonTrivial()
 		if after := deepPrint(p); after != before {
